@@ -325,7 +325,7 @@ run_early(void *arg)
 typedef struct sarg {
 	int tran;
 	int isrep;     // 0 pair0 socket, 1 rep socket
-	int family;    // 'A','B','C','D'
+	int family;    // 'A','B','C','D','S'
 	size_t recvmax; // 0 unlimited, 16, or (size_t)-1 = default
 	int nbatch, per;
 } sarg;
@@ -415,7 +415,7 @@ run_stream(void *arg)
 		f1 = o + mkframe(&st, W + o, phdr, phl, body1, 9);
 		f2 = f1 + mkframe(&st, W + f1, phdr, phl, body2, 5);
 		size_t lenoff = 8 + (a->tran == TR_IPC ? 1 : 0); // first length byte
-		int    expect_eof = 0, send_len = (int) f2;
+		int    expect_eof = 0, send_len = (int) f2, cut1 = -1, cut2 = -1, must_deliver = -1;
 		char   what[120];
 		cur_case      = cs;
 		cur_maxframes = 2;
@@ -436,6 +436,30 @@ run_stream(void *arg)
 			expect_eof    = 1;
 			cur_maxframes = 0;
 			snprintf(what, sizeof(what), "handshake byte %d = 0x%02x", off, nv);
+		} else if (a->family == 'S') {
+			// the 8-byte SP header arrives in pieces (a slow or partial sender): a valid one is
+			// accepted whatever the pieces are, and c bytes of garbage followed by the first 8-c
+			// bytes of a valid header is not a header, in whatever pieces it arrives
+			int variant = cs / 7, c = cs % 7 + 1;
+			if (variant >= 4)
+				break;
+			cut1 = c;
+			if (variant == 1) {
+				uint8_t g[8];
+				memset(g, 0x5a, sizeof(g));
+				memcpy(g + c, hs, (size_t) (8 - c));
+				memcpy(W, g, 8);
+				expect_eof    = 1;
+				cur_maxframes = 0;
+			} else if (variant == 2) {
+				cut2 = c + 1 < 8 ? c + 1 : -1;
+			} else if (variant == 3) {
+				cut1 = -2; // byte by byte up to offset c, the rest in one piece
+				cut2 = c;
+			}
+			must_deliver = variant == 1 ? 0 : 2;
+			snprintf(what, sizeof(what), "%s header in pieces (variant %d, cut %d)",
+			    variant == 1 ? "shifted" : "valid", variant, c);
 		} else if (a->family == 'C') {
 			int off = cs / 256, v = cs % 256;
 			if (off >= 8)
@@ -507,13 +531,34 @@ run_stream(void *arg)
 		if (fd < 0)
 			vs_fail("C11:listener:accept", "%s: connection refused before %s",
 			    TRN[a->tran], what);
-		vp_write_all(fd, W, (size_t) send_len);
+		if (cut1 == -2) {
+			for (int i = 0; i < cut2; i++) {
+				vp_write_all(fd, W + i, 1);
+				vs_settle();
+			}
+			vp_write_all(fd, W + cut2, (size_t) (send_len - cut2));
+		} else if (cut1 > 0) {
+			vp_write_all(fd, W, (size_t) cut1);
+			vs_settle();
+			if (cut2 > cut1) {
+				vp_write_all(fd, W + cut1, (size_t) (cut2 - cut1));
+				vs_settle();
+				vp_write_all(fd, W + cut2, (size_t) (send_len - cut2));
+			} else
+				vp_write_all(fd, W + cut1, (size_t) (send_len - cut1));
+		} else
+			vp_write_all(fd, W, (size_t) send_len);
 		vs_settle();
 		vs_case();
 		vs_nontrivial();
 		bad_delivery = 0;
 		if (cur_maxframes >= 0) {
-			drain(s, tagged_deliv, a, a->isrep);
+			int nd = drain(s, tagged_deliv, a, a->isrep);
+			if (must_deliver >= 0 && nd != must_deliver && !bad_delivery)
+				vs_fail(must_deliver ? "C11:valid-peer-dropped" : "C11:delivered-invalid",
+				    "%s/%s: after %s: %d message(s) delivered, %d expected%s", TRN[a->tran],
+				    a->isrep ? "rep" : "pair1poly", what, nd, must_deliver,
+				    must_deliver ? " (a conforming peer that sends its header slowly)" : "");
 			if (bad_delivery)
 				vs_fail("C11:delivered-invalid", "%s/%s: after %s: %s",
 				    TRN[a->tran], a->isrep ? "rep" : "pair1poly", what,
@@ -1371,12 +1416,12 @@ main(int argc, char **argv)
 				int    fam;
 				size_t rmax;
 				int    total, per;
-			} F[] = { { 'A', (size_t) -1, 48, 12 },
+			} F[] = { { 'S', (size_t) -1, 28, 7 }, { 'A', (size_t) -1, 48, 12 },
 				{ 'B', (size_t) -1, 8 * 255, 60 }, { 'C', 16, 8 * 256, 64 },
 				{ 'C', 0, 8 * 256, 64 }, { 'C', (size_t) -1, 8 * 256, 64 },
 				{ 'D', 16, 26, 26 }, { 'D', 0, 26, 26 },
 				{ 'D', (size_t) -1, 26, 26 } };
-			for (int f = 0; f < 8; f++) {
+			for (int f = 0; f < 9; f++) {
 				if (!T && tran != TR_SOCKFD &&
 				    (F[f].fam == 'B' || (F[f].fam == 'C' && F[f].rmax != 16)))
 					continue;
